@@ -9,3 +9,20 @@ def classifier(name):
         CLASSIFIERS[name] = fn
         return fn
     return deco
+
+
+def _lex(case):
+    return case.get('lex') or []
+
+
+@classifier('f6_serializer_quote_parity')
+def _f6(case, failure):
+    """F6: a quote character inside a comment or backtick name shifts the serializer's raw-text quote pairing, so a
+    later multi-line literal is line-normalised (C06/C08) or a line keeps its trailing blank (C10).  Only failures of
+    exactly that shape, in a case that contains such a lexeme, are attributed."""
+    from props import _fmt
+    if not _fmt.quote_hazard(_lex(case)):
+        return False
+    return (failure.clause, failure.sig) in {
+        ('significant-tokens', 'str-eol-normalised'), ('significant-tokens', 'qname-eol-normalised'),
+        ('relex', 'quoted-eol-normalised'), ('nf3-trailing-blank', 'line'), ('idempotent', 'eol-normalised')}
